@@ -52,10 +52,15 @@ fn config(gen: usize, n: usize, var: usize) -> Option<(Vec<C>, bool)> {
             }
         }
         2 => {
-            let cc = [c(1.0, 0.0), c(-2.0, 0.0), c(0.0, 8.0), c(-30.0, 0.0)][var % 4];
-            if var >= 4 {
-                return None;
-            }
+            // variants 4..6: the constant is chosen by the modulus of the roots (2, 2.5, 3: large roots of a sparse
+            // polynomial - |c|^(1/n) of the fixed constants above never exceeds 1.5 for high degrees)
+            let cc = match var {
+                0..=3 => [c(1.0, 0.0), c(-2.0, 0.0), c(0.0, 8.0), c(-30.0, 0.0)][var],
+                4 => c(2f64.powi(n as i32), 0.0),
+                5 => c(-(2.5f64.powi(n as i32)), 0.0),
+                6 => c(0.0, 3f64.powi(n as i32)),
+                _ => return None,
+            };
             complex = cc.im != 0.0;
             let (rad, arg) = (cc.norm().powf(1.0 / n as f64), cc.arg() / n as f64);
             for k in 0..n {
@@ -199,7 +204,10 @@ impl Check for PolyRoots {
         let mut v = vec![];
         for gen in 0..GENS.len() {
             for n in 1..=10 {
-                for var in 0..t.pick(3, 9) {
+                for var in 0..9 {
+                    if t == Tier::Quick && var >= 3 && !(gen == 2 && (4..=6).contains(&var)) {
+                        continue;
+                    }
                     if config(gen, n, var).is_none() {
                         continue;
                     }
